@@ -926,12 +926,16 @@ impl FunctionCompiler<'_> {
                 Some(memory.into_value(&mut self.builder, self.ptr_ty))
             }
             hir::Expr::Index { source, index } => {
-                if self.tys[self.loc][expr].is_zero_sized() {
-                    return None;
-                }
+                // a zero-sized element has no address and no load, but the source and the index
+                // are still evaluated and the index is still checked against the length
+                let element_is_zero_sized = self.tys[self.loc][expr].is_zero_sized();
 
                 let mut source_ty = self.tys[self.loc][source];
-                let mut source = self.compile_expr(source).unwrap(); // this will be usize
+                // this will be usize. a zero-sized array has no address; only its length is used
+                let mut source = match self.compile_expr(source) {
+                    Some(source) => source,
+                    None => self.builder.ins().iconst(self.ptr_ty, 0),
+                };
 
                 let mut required_derefs = 0;
                 while let Some((_, sub_ty)) = source_ty.as_pointer() {
@@ -996,6 +1000,10 @@ impl FunctionCompiler<'_> {
                         "slice index out of bounds"
                     }),
                 );
+
+                if element_is_zero_sized {
+                    return None;
+                }
 
                 // now we have to align the index, the elements of the array only start every
                 // so many bytes (4 bytes for i32, 8 bytes for i64)
